@@ -982,3 +982,45 @@ Proof.
   split; [exact (C08_write_text_spelling_independent true c08p_P1 c08p_P2 (Some c08p_old) true c08p_d H1 H2)|].
   vm_compute. c08p_conj; reflexivity.
 Qed.
+
+(* ================================================================================================== *)
+(* non-vacuity examples added after the reviewer's audit (Properties/C08_nv.v, 2026-10-01)         *)
+(* ================================================================================================== *)
+
+(* ==== non-vacuity instances obtained BY APPLYING the theorems above (added after review) ================== *)
+
+(* C08_foam_writer_counter_independent: the SDict read from c08_text and its include (two line comments, an include, a block
+   comment, two string literals, a nested dict, the sub-file's comment) at the fresh counter; renamed by 999998 (= the
+   read at 999997, ids 999998 999999 0 1 ...: across the wrap-around) the tables differ, the Foam text is the same *)
+Example C08_foam_writer_counter_independent_nonvacuous :
+  let s := c08_sd (read_plain c08_fs2 c08_root true true (-1)) in
+  write_safe s = true /\ cleanb (foam_to_string_sd s) = true /\
+  foam_to_string_sd (rename_sd 999998 s) = foam_to_string_sd s /\
+  rename_sd 999998 s = c08_sd (read_plain c08_fs2 c08_root true true 999997) /\
+  map fst (sd_lc s) <> map fst (sd_lc (rename_sd 999998 s)) /\ rename_sd 999998 s <> s /\
+  contains (of_string "OpenFOAM") (foam_to_string_sd s) = true /\ contains (of_string "// sub comment") (foam_to_string_sd s) = true.
+Proof.
+  cbv zeta.
+  assert (H1 : write_safe (c08_sd (read_plain c08_fs2 c08_root true true (-1))) = true) by (vm_compute; reflexivity).
+  assert (H2 : cleanb (foam_to_string_sd (c08_sd (read_plain c08_fs2 c08_root true true (-1)))) = true) by (vm_compute; reflexivity).
+  refine (conj H1 (conj H2 (conj (C08_foam_writer_counter_independent _ _ H1 H2) _))).
+  split; [vm_compute; reflexivity|]. split; [vm_compute; discriminate|]. split; [vm_compute; discriminate|].
+  split; vm_compute; reflexivity.
+Qed.
+
+(* C08_read_spelling_includes_off: only  norm_path r1 = norm_path r2  is asked, so also the spelling with a leading /.. and
+   a trailing slash qualifies (it is NOT same_file with the plain one); counter two steps before the wrap-around *)
+Example C08_read_spelling_includes_off_nonvacuous :
+  norm_path c08p_A = norm_path c08p_C /\ norm_path c08p_A = norm_path c08p_E /\
+  read_rel (ER_dir (dir_of c08p_A) (dir_of c08p_C)) (read_plain c08p_fs c08p_A false true 999998) (read_plain c08p_fs c08p_C false true 999998) /\
+  read_rel (ER_dir (dir_of c08p_A) (dir_of c08p_E)) (read_plain c08p_fs c08p_A false false 999998) (read_plain c08p_fs c08p_E false false 999998) /\
+  c08p_view (read_plain c08p_fs c08p_A false true 999998) =
+    ([KS (of_string "m")], [(999999%N, of_string "sub/a.dict")], [of_string "/r/sub/a.dict"], 999999%Z) /\
+  c08p_view (read_plain c08p_fs c08p_C false true 999998) =
+    ([KS (of_string "m")], [(999999%N, of_string "sub/a.dict")], [of_string "/r/sub/../sub/a.dict"], 999999%Z).
+Proof.
+  assert (H1 : norm_path c08p_A = norm_path c08p_C) by (vm_compute; reflexivity).
+  assert (H2 : norm_path c08p_A = norm_path c08p_E) by (vm_compute; reflexivity).
+  refine (conj H1 (conj H2 (conj (C08_read_spelling_includes_off _ _ _ _ _ H1) (conj (C08_read_spelling_includes_off _ _ _ _ _ H2) _)))).
+  split; vm_compute; reflexivity.
+Qed.
